@@ -6,7 +6,7 @@ use crate::gen::smlfile::{cfile, classify_file};
 use crate::props::parsers::*;
 use crate::refmodel::conv;
 use crate::refmodel::sml::*;
-use crate::util::{hex_short, Kv};
+use crate::util::{clip, hex_short, Kv};
 use proptest::prelude::*;
 
 pub struct C03;
@@ -111,9 +111,9 @@ impl Prop for C03 {
         ensure!(
             got.as_ref().ok() == Some(&expect_file),
             if got.is_err() { "valid-file-rejected" } else { "valid-file-parsed-wrongly" },
-            "complete::parse of a well-formed file returns\n  {:?}\nexpected\n  {:?}\nwire ({} bytes) = {}",
-            got,
-            expect_file,
+            "complete::parse of a well-formed file returns\n  {}\nexpected\n  {}\nwire ({} bytes) = {}",
+            clip(format!("{:?}", got), 900),
+            clip(format!("{:?}", expect_file), 900),
             i.wire.len(),
             hex_short(&i.wire, 200)
         );
